@@ -1,6 +1,6 @@
 (* Property C15 - the in-memory identity manager stays consistent.
    Only statements, each closed by [exact] of a lemma proved elsewhere. *)
-From Avfs Require Import Base MemIdm MemIdmProofs.
+From Avfs Require Import Base MemIdm MemIdmProofs MemIdmConc.
 
 (* Every history of the eight calls returns, call by call, exactly what the
    two-list reference ("the users and groups added and not yet deleted")
@@ -46,6 +46,27 @@ Proof. exact admin_exactly. Qed.
 Theorem C15_concurrent_consistent : forall an gn threads sched,
   Consistent (fst (crun (idm_init an gn, threads) sched)).
 Proof. exact concurrent_consistent. Qed.
+
+(* The run that the check compares with the instrumented code (results, the lock of every critical
+   section, final maps) is that very [crun]: the theorem above is about what is tied to the code. *)
+Theorem C15_traced_run_is_crun : forall st sched, fst (crun_traced st sched) = crun st sched.
+Proof. exact crun_traced_is_crun. Qed.
+
+(* REFUTED - linearizability of AddUser: after AddGroup g1, T0 = AddUser u2 g1 and T1 = DelGroup g1;
+   LookupUser u2 under the schedule [0;1;1;0] (T0 finds g1 under grpMu, T1 deletes g1 and looks u2 up,
+   T0 inserts u2 under usrMu) return results that no sequential order of the three calls returns.
+   (The maps stay consistent - theorem above - and the outcome of AddUser alone is that of
+   "AddUser; DelGroup": the property's clause "AddUser fails for an unknown group" holds for the
+   group table as it was at AddUser's look-up.) *)
+Theorem C15_refuted_adduser_delgroup :
+  idm_lin_ok w_s0 w_progs (crun (w_s0, mk_threads w_progs) w_sched) = false /\
+  outs (crun (w_s0, mk_threads w_progs) w_sched) = [[RUser w_u2 1001 1001 false]; [RNil; RErr (UnknownUser w_u2)]].
+Proof. split; [exact adduser_delgroup_not_linearizable|exact adduser_delgroup_outcome]. Qed.
+
+Example C15_lin_checker_accepts_sequential :
+  idm_lin_ok w_s0 w_progs (crun (w_s0, mk_threads w_progs) [0; 0; 1; 1]) = true /\
+  idm_lin_ok w_s0 w_progs (crun (w_s0, mk_threads w_progs) [1; 0; 1; 0]) = true.
+Proof. exact idm_lin_ok_sequential. Qed.
 
 (* Non-vacuity: a concrete history with adds, duplicate, deletes and re-adds. *)
 Example C15_example :
